@@ -1,6 +1,10 @@
 package main
 
-import "sort"
+import (
+	"fmt"
+	"sort"
+	"strings"
+)
 
 func sortStrings(s []string) { sort.Strings(s) }
 
@@ -30,4 +34,71 @@ func declinedFor(id string) string {
 func runControls(o *RunOpts, r *Report) {}
 
 // thorough adds configurations, the CHA superset and mutation self-validation.
-func thorough(o *RunOpts, p *Prog, r *Report, fn ruleFn) {}
+func thorough(o *RunOpts, p *Prog, r *Report, fn ruleFn) {
+	// (a) other build configurations: the same rules must hold for every file any build covers
+	base := map[string]bool{}
+	for _, k := range failingKeys(r) {
+		base[k] = true
+	}
+	type cfgRes struct {
+		Config  string   `json:"config"`
+		Files   int      `json:"go_files"`
+		NewFail []string `json:"new_failing"`
+		Error   string   `json:"error,omitempty"`
+	}
+	var cfgs []cfgRes
+	for _, c := range []LoadOpts{
+		{Dir: o.Repo, Env: []string{"GOOS=windows", "GOARCH=amd64"}},
+		{Dir: o.Repo, Env: []string{"GOOS=linux", "GOARCH=386"}},
+		{Dir: o.Repo, Tags: "verif"},
+	} {
+		delete(anchorsMemo, p)
+		p2, err := Load(c)
+		cr := cfgRes{Config: strings.TrimSpace(strings.Join(c.Env, " ") + " tags=" + c.Tags)}
+		if err != nil {
+			cr.Error = err.Error()
+			r.Begin("R-CONFIG", "tree loads under "+cr.Config, 0)
+			r.Unk("load:"+cr.Config, "-", "%v", err)
+			cfgs = append(cfgs, cr)
+			continue
+		}
+		cr.Files = len(p2.Pkg.GoFiles)
+		r2 := NewReport(o.Property)
+		fn(p2, r2)
+		for _, ob := range r2.Obligs {
+			if (ob.Verdict == Violated || ob.Verdict == Undecided) && !base[ob.Rule+"|"+ob.Key] {
+				cr.NewFail = append(cr.NewFail, ob.Rule+"|"+ob.Key)
+				// a violation that exists only under another configuration is a violation
+				r.Begin(ob.Rule, "under "+cr.Config, 0)
+				r.add(ob.Key+" ["+cr.Config+"]", ob.Pos, ob.Verdict, true, "%s", ob.Reason)
+			}
+		}
+		delete(anchorsMemo, p2)
+		cfgs = append(cfgs, cr)
+	}
+	r.Extra["configurations"] = cfgs
+	// (b) mutation self-validation
+	oc := runMutants(o, r)
+	killed, survived, skipped := 0, 0, 0
+	for _, m := range oc {
+		switch m.Status {
+		case "killed", "killed-by-other-rule":
+			killed++
+		case "survived":
+			survived++
+		default:
+			skipped++
+		}
+	}
+	r.Extra["mutants"] = oc
+	r.Extra["mutants_applied"] = killed + survived
+	r.Extra["mutants_killed"] = killed
+	r.Extra["mutants_survived"] = survived
+	r.Extra["mutants_skipped"] = skipped
+	fmt.Printf("self-validation: %d mutants applied, %d killed, %d survived, %d skipped\n", killed+survived, killed, survived, skipped)
+	for _, m := range oc {
+		if m.Status != "killed" {
+			fmt.Printf("  mutant %s: %s (expected %s) %v %s\n", m.ID, m.Status, m.Expect, m.NewFail, m.Note)
+		}
+	}
+}
